@@ -230,6 +230,17 @@ def build_ops(cfg):
         Op("INVALID shell(coord list)", lambda w: S(1, [0.0, 0.0, 0.0], np.array([1.0]), np.array([1.0]), "c"), "invalid"),
         Op("INVALID shell.exps(size)", lambda w: setattr(w["shells"][0], "exps", np.array([1.0, 2.0, 3.0])), "invalid"),
         Op("INVALID shell.coord_type", lambda w: setattr(w["shells"][1], "coord_type", "polar"), "invalid"),
+        # a rejected update / import must leave the objects as they were (every later call still works)
+        Op("INVALID shell.coeffs(rows)", lambda w: setattr(w["shells"][0], "coeffs", np.array([[0.1, 0.2], [0.3, 0.4], [0.5, 0.6]])), "invalid"),
+        Op("INVALID shell.coeffs(1-D of wrong length)", lambda w: setattr(w["shells"][2], "coeffs", np.array([0.1, 0.2])), "invalid"),
+        Op("INVALID shell.coeffs(3-D)", lambda w: setattr(w["shells"][0], "coeffs", np.ones((2, 2, 1))), "invalid"),
+        Op("INVALID shell.coeffs(list)", lambda w: setattr(w["shells"][1], "coeffs", [1.0]), "invalid"),
+        Op("INVALID shell.coord(shape)", lambda w: setattr(w["shells"][1], "coord", np.zeros(2)), "invalid"),
+        Op("INVALID shell.angmom(negative)", lambda w: setattr(w["shells"][1], "angmom", -1), "invalid"),
+        Op("INVALID make_contractions(element not in the dictionary)",
+           lambda w: parsers.make_contractions(w["basis_dict"], ["He", "Xx", "He"], w["atom_coords"], "c"), "invalid"),
+        Op("INVALID make_contractions(coords with 2 columns)",
+           lambda w: parsers.make_contractions(w["basis_dict"], w["atoms"], w["atom_coords"][:, :2], "c"), "invalid"),
     ]
     m = cfg["mutable"]
     tg = ("shells", "basis_tuple", "basis_list")
